@@ -3,6 +3,7 @@
 use crate::*;
 use crate::header::DBC_MAGIC;
 use std::io::Cursor;
+use std::io::Write;
 
 pub fn stub_format(_args: core::fmt::Arguments<'_>) -> String {
     String::new()
@@ -75,7 +76,16 @@ fn u17_1_header_parse() {
             assert!(h.string_block_size == u32::from_le_bytes([buf[16], buf[17], buf[18], buf[19]]));
             assert!(!(h.record_count > 0 && (h.record_size == 0 || h.field_count == 0)));
         }
-        Err(e) => core::mem::forget(e),
+        Err(e) => {
+            core::mem::forget(e);
+            // every header a writer can produce is accepted: 20 bytes, the magic, and either no records or
+            // at least one field with at least one byte per field (record_size >= field_count >= 1)
+            let rc = u32::from_le_bytes([buf[4], buf[5], buf[6], buf[7]]);
+            let fc = u32::from_le_bytes([buf[8], buf[9], buf[10], buf[11]]);
+            let rs = u32::from_le_bytes([buf[12], buf[13], buf[14], buf[15]]);
+            let writable = len >= 20 && buf[0] == b'W' && buf[1] == b'D' && buf[2] == b'B' && buf[3] == b'C' && (rc == 0 || (fc >= 1 && rs >= fc));
+            assert!(!writable, "a header with consistent counts is accepted");
+        }
     }
 }
 
@@ -158,3 +168,64 @@ fn u17_4_key_map_points_at_records_with_that_key() {
     }
 }
 
+
+// ------------------------------------------------------------------------------------ U17.6 value writer
+// E11 block: the `match (value, field_type)` statement of DbcWriter::write_value.  `self` becomes a proxy holding a
+// fixed slice sink; the record set / string-offset map (only touched by the StringRef arm, not exercised here) are
+// proxies; the Array arm's recursive call is unreachable for the scalar values the harness passes.
+pub struct WvProxy<'a> { pub writer: &'a mut [u8] }
+impl<'a> WvProxy<'a> {
+    fn write_value(&mut self, _v: &Value, _t: FieldType, _r: &RsProxy, _s: &SoProxy) -> Result<()> { unreachable!() }
+}
+pub struct RsProxy;
+impl RsProxy { fn get_string(&self, _r: StringRef) -> Result<&str> { Ok("") } }
+pub struct SoProxy;
+impl SoProxy { fn get(&self, _k: &str) -> Option<&u32> { None } }
+
+fn write_then_parse(v: &Value, t: FieldType, width: usize) -> core::mem::ManuallyDrop<Value> {
+    let mut buf = [0xAAu8; 8];
+    let left;
+    {
+        let mut p = WvProxy { writer: &mut buf[..] };
+        let r = blk_write_value(&mut p, v, t, &RsProxy, &SoProxy);
+        assert!(r.is_ok(), "a value of the field's type is written");
+        core::mem::forget(r);
+        left = p.writer.len();
+    }
+    assert!(left == 8 - width, "exactly the field width is written");
+    let mut src: &[u8] = &buf[..width];
+    let back = crate::field_parser::parse_field_value(&mut src, t);
+    assert!(back.is_ok(), "the written field parses");
+    match back { Ok(v) => core::mem::ManuallyDrop::new(v), Err(e) => { core::mem::forget(e); unreachable!() } }
+}
+
+// every scalar field type: parse_field_value(write_value(v)) == v, and exactly size(type) bytes are written
+// @harness unit=U17.6 props=C17 kind=complete timeout=600 target="writer.rs: DbcWriter::write_value (scalar arms, E11 block), field_parser.rs: parse_field_value" oracle=dbc_writer
+#[kani::proof]
+#[kani::unwind(10)]
+#[kani::stub(alloc::fmt::format, stub_format)]
+fn u17_6_value_codec_ints() {
+    let a: i32 = kani::any();
+    assert!(matches!(*write_then_parse(&*core::mem::ManuallyDrop::new(Value::Int32(a)), FieldType::Int32, 4), Value::Int32(x) if x == a), "Int32 survives");
+    let b: u32 = kani::any();
+    assert!(matches!(*write_then_parse(&*core::mem::ManuallyDrop::new(Value::UInt32(b)), FieldType::UInt32, 4), Value::UInt32(x) if x == b), "UInt32 survives");
+    let c: bool = kani::any();
+    assert!(matches!(*write_then_parse(&*core::mem::ManuallyDrop::new(Value::Bool(c)), FieldType::Bool, 4), Value::Bool(x) if x == c), "Bool survives");
+}
+
+// @harness unit=U17.6 props=C17 kind=complete timeout=600 target="writer.rs: DbcWriter::write_value (scalar arms, E11 block), field_parser.rs: parse_field_value" oracle=dbc_writer
+#[kani::proof]
+#[kani::unwind(10)]
+#[kani::stub(alloc::fmt::format, stub_format)]
+fn u17_6_value_codec_small() {
+    let a: u8 = kani::any();
+    assert!(matches!(*write_then_parse(&*core::mem::ManuallyDrop::new(Value::UInt8(a)), FieldType::UInt8, 1), Value::UInt8(x) if x == a), "UInt8 survives");
+    let b: i8 = kani::any();
+    assert!(matches!(*write_then_parse(&*core::mem::ManuallyDrop::new(Value::Int8(b)), FieldType::Int8, 1), Value::Int8(x) if x == b), "Int8 survives");
+    let c: u16 = kani::any();
+    assert!(matches!(*write_then_parse(&*core::mem::ManuallyDrop::new(Value::UInt16(c)), FieldType::UInt16, 2), Value::UInt16(x) if x == c), "UInt16 survives");
+    let d: i16 = kani::any();
+    assert!(matches!(*write_then_parse(&*core::mem::ManuallyDrop::new(Value::Int16(d)), FieldType::Int16, 2), Value::Int16(x) if x == d), "Int16 survives");
+    let e: f32 = kani::any();
+    assert!(matches!(*write_then_parse(&*core::mem::ManuallyDrop::new(Value::Float32(e)), FieldType::Float32, 4), Value::Float32(x) if x.to_bits() == e.to_bits()), "Float32 bits survive");
+}
